@@ -48,7 +48,9 @@ pub struct Ledger {
 /// the flag octet as it appears on the wire for a recorded event / value
 pub fn wire_flags(ptype: PointType, flags: u8, value: f64) -> u8 {
     match ptype {
-        PointType::Binary | PointType::BinaryOutputStatus => (flags & 0x7F) | if value != 0.0 { 0x80 } else { 0 },
+        PointType::Binary | PointType::BinaryOutputStatus => {
+            (flags & 0x7F) | if value != 0.0 { 0x80 } else { 0 }
+        }
         PointType::DoubleBit => (flags & 0x3F) | (((value as u8) & 0x03) << 6),
         _ => flags,
     }
@@ -60,8 +62,12 @@ impl Ledger {
         let mut mirror = BTreeMap::new();
         for p in &cfg.points {
             // later definitions of the same point are ignored by the database (add returns false)
-            points.entry((p.ptype, p.index)).or_insert_with(|| p.clone());
-            mirror.entry((p.ptype, p.index)).or_insert_with(|| default_static(p.ptype));
+            points
+                .entry((p.ptype, p.index))
+                .or_insert_with(|| p.clone());
+            mirror
+                .entry((p.ptype, p.index))
+                .or_insert_with(|| default_static(p.ptype));
         }
         Self {
             events: BTreeMap::new(),
@@ -85,19 +91,30 @@ impl Ledger {
     }
 
     /// record an applied update; returns an error text if the reported discard is not the oldest live event of that type
-    pub fn apply_update(&mut self, op: &UpdateOp, info: UpdateInfo, t_ms: u64) -> Result<(), String> {
+    pub fn apply_update(
+        &mut self,
+        op: &UpdateOp,
+        info: UpdateInfo,
+        t_ms: u64,
+    ) -> Result<(), String> {
         let key = (op.ptype, op.index);
         let exists = self.points.contains_key(&key);
         match info {
             UpdateInfo::NoPoint => {
                 if exists {
-                    return Err(format!("update of existing point {:?} reported NoPoint", key));
+                    return Err(format!(
+                        "update of existing point {:?} reported NoPoint",
+                        key
+                    ));
                 }
                 return Ok(());
             }
             _ => {
                 if !exists {
-                    return Err(format!("update of undefined point {:?} reported {:?}", key, info));
+                    return Err(format!(
+                        "update of undefined point {:?} reported {:?}",
+                        key, info
+                    ));
                 }
             }
         }
@@ -117,7 +134,11 @@ impl Ledger {
         let created = match info {
             UpdateInfo::Created(id) => Some(id),
             UpdateInfo::Overflow { created, discarded } => {
-                let oldest = self.live().filter(|e| e.ptype == op.ptype).map(|e| e.id).min();
+                let oldest = self
+                    .live()
+                    .filter(|e| e.ptype == op.ptype)
+                    .map(|e| e.id)
+                    .min();
                 if oldest != Some(discarded) {
                     result = Err(format!(
                         "overflow of {:?} reported discarded id {} but the oldest live event of that type is {:?}",
@@ -210,7 +231,11 @@ pub fn default_static(ptype: PointType) -> StaticVal {
     // a freshly added point: value zero/false, flags RESTART (0x02), no time
     StaticVal {
         // double-bit points start as Indeterminate (3), everything else as 0 / false
-        value: if ptype == PointType::DoubleBit { 3.0 } else { 0.0 },
+        value: if ptype == PointType::DoubleBit {
+            3.0
+        } else {
+            0.0
+        },
         bytes: vec![0x00],
         flags: 0x02,
         time: None,
@@ -226,13 +251,21 @@ pub fn match_events(ledger: &Ledger, events: &[&Meas], also_ok: &[u64]) -> Resul
 
 /// as `match_events`, considering only events with an id up to `max_id`: a fragment can only carry events that existed when
 /// the session took the database lock to write it
-pub fn match_events_before(ledger: &Ledger, events: &[&Meas], also_ok: &[u64], max_id: Option<u64>) -> Result<Vec<u64>, usize> {
+pub fn match_events_before(
+    ledger: &Ledger,
+    events: &[&Meas],
+    also_ok: &[u64],
+    max_id: Option<u64>,
+) -> Result<Vec<u64>, usize> {
     let mut ids: Vec<u64> = Vec::new();
     for (i, m) in events.iter().enumerate() {
         let candidates: Vec<&LedgerEvent> = ledger
             .events
             .values()
-            .filter(|e| e.state == EvState::Live || (e.state == EvState::Discarded && also_ok.contains(&e.id)))
+            .filter(|e| {
+                e.state == EvState::Live
+                    || (e.state == EvState::Discarded && also_ok.contains(&e.id))
+            })
             .filter(|e| !ids.contains(&e.id))
             .filter(|e| max_id.map(|m| e.id <= m).unwrap_or(true))
             .filter(|e| Ledger::matches(e, m))
